@@ -88,7 +88,7 @@ def lib_diff(speclib, exp_blocks, ol, raw_values=True):
             if o["dup_key"] != e["key"] or not o["has_error"]:
                 return "wrapper_key", f"wrapper at {i + 1} exposes key {o['dup_key']!r} error={o['has_error']}, expected {e['key']!r}"
             want_cls = "Entry" if e["cls"] == "entry" else "String"
-            if o["inner_cls"] != want_cls or o["inner_key"] != e["key"] or o["inner_raw"] != e["raw"] or o["raw"] != e["raw"]:
+            if o["inner_cls"] != want_cls or o["inner_key"] != e["key"] or (o["inner_raw"] or "").strip() != e["raw"].strip() or (o["raw"] or "").strip() != e["raw"].strip():
                 return "complete_duplicate", f"wrapper at {i + 1} holds {o['inner_cls']} key={o['inner_key']!r}, expected {want_cls} {e['key']!r}"
             if raw_values and e["cls"] == "entry" and o["inner_fields"] != [f[:2] for f in e["fields"]]:
                 return "complete_duplicate", f"wrapper at {i + 1} inner fields {o['inner_fields']!r} expected {[f[:2] for f in e['fields']]!r}"
